@@ -189,6 +189,15 @@ class HRecList:
     return HRecList(self.cls, self.fields, dict(self.reps), self.length)
 
 
+class HexStrSet:
+  """The set {format(i, 'x') : mem(i)} of lowercase-hex strings of a set of ints, as a value (str(...) of it, and
+  ast.literal_eval of that string, are the library theory `set-of-hex-strings round trip`)."""
+  __slots__ = ("mem",)
+
+  def __init__(self, mem):
+    self.mem = mem      # callable: int term -> z3 Bool
+
+
 class HPointMap:
   """collections.defaultdict(list) keyed by points (pairs of ints), values lists of ints - as a mutable ghost relation:
   `term` names the current relation pm_has(term, px, py, index) (an append creates a new term related to the old one)."""
@@ -242,6 +251,8 @@ def parse_type(s):
     return ("elem", s[5:])
   if s.startswith("obj:"):
     return ("obj", s[4:])
+  if low == "intset":
+    return ("intset",)
   if low == "point":
     return ("tuple", (("opt", "int"), ("opt", "int")))
   if low == "jpoint":
